@@ -66,9 +66,9 @@ def run(facts, rep, tier):
             return
     rep.tables["operation_predicates"] = {k: {n: V.fmt(x) for n, x in v.items()} for k, v in tb.items()}
     vs = V.variants(facts)
-    rep.floor("C04.F", "Operation variants", len(vs), 54)
+    rep.floor("C04.F", "Operation variants", len(vs), 50)
     prot = protected_variants(tb)
-    rep.floor("C04.F", "randomizing/PRF/input variants", len(prot), 7)
+    rep.floor("C04.F", "randomizing/PRF/input variants", len(prot), 6)
     vidx = {n: i for i, n in vs}
 
     # ---------------------------------------------------------------- C04.F
@@ -366,7 +366,7 @@ def randomizing_complete(facts, rep, tb, vs, vidx):
                    name, "uses" if uses else "does not use", V.fmt(rnd),
                    "" if uses == want else ": the optimizer's table disagrees with what evaluation does "
                                            "(a randomizing operation not listed can be folded or merged)"), ev.loc())
-    rep.floor("C04.R", "evaluator arms using the PRNG", n_rand, 4)
+    rep.floor("C04.R", "evaluator arms using the PRNG", n_rand, 3)
 
 
 # -------------------------------------------------------------------- C04.C
@@ -388,7 +388,7 @@ def constructors(facts, rep):
                        "Operation::%s constructed in %s%s" % (rv[1]["vn"], name,
                        ": passes that run after the renumbering must only forward existing operations" if bad else ""), b.loc(bb))
     rep.tables["random_operation_constructors"] = sites
-    rep.floor("C04.C", "constructors of PRF/Random operations", n, 6)
+    rep.floor("C04.C", "constructors of PRF/Random operations", n, 5)
 
 
 # -------------------------------------------------------------------- C04.X
